@@ -158,7 +158,16 @@ def owner_of(line):
 
 # ------------------------------------------------------------------------------------------ proof side
 
-PROP_MODULES = {"C07": ["C07", "C07Num", "C07Final"], "C09": ["C09", "C09Final"], "C10": ["C10", "C10Num"]}
+PROP_MODULES = {"C07": ["C07", "C07Num", "C07Final", "Consts"], "C09": ["C09", "C09Final", "C09Utf8", "Consts"], "C10": ["C10", "C10Num", "Consts"],
+                "C15": ["C15", "C15Utf8", "Consts"]}
+# optional modules (added as proof agents deliver them): used only when the file exists
+for _pid, _mods in (("C10", ["C10IEEE", "C10RoundTrip"]), ("C01", ["C01", "C01Wf"]), ("C18", ["C18", "C18RoundTrip"])):
+    for _m in _mods:
+        if os.path.exists(os.path.join(os.path.dirname(os.path.dirname(os.path.abspath(__file__))), "lean", "JL", "Props", _m + ".lean")):
+            PROP_MODULES.setdefault(_pid, [_pid] if _m != _pid else [])
+            if _m not in PROP_MODULES[_pid]: PROP_MODULES[_pid].append(_m)
+# namespaces whose theorems are the obligations of a property (Consts = tie theorems against constants regenerated from the source)
+PROP_NAMESPACES = {"C07": ["C07", "Consts"], "C09": ["C09", "Consts"], "C10": ["C10", "Consts"], "C15": ["C15", "Consts"]}
 
 
 def modules_of(pid):
@@ -180,7 +189,7 @@ elab "#audit_ns " ns:ident : command => do
         out := out.push s!"THEOREM {n} AXIOMS {axs.toList}"
       | _ => pure ()
   for l in out.qsort (· < ·) do logInfo l
-#audit_ns JL.Props.%(pid)s
+%(audits)s
 """
 
 FORBIDDEN = re.compile(r"\b(sorry|admit|native_decide|bv_decide|implemented_by|unsafe)\b|^\s*axiom\s|maxHeartbeats\s+0")
@@ -208,7 +217,8 @@ def proof_side(pid, tier):
                         res["problems"].append("forbidden construct in %s: %s" % (f, ln.strip()[:80]))
     os.makedirs(os.path.join(jl.BUILD, "tmp"), exist_ok=True)
     af = os.path.join(jl.BUILD, "tmp", "audit_%s.lean" % pid)
-    open(af, "w").write(AUDIT_TEMPLATE % dict(pid=pid, imports="\n".join("import " + m for m in modules_of(pid))))
+    open(af, "w").write(AUDIT_TEMPLATE % dict(pid=pid, imports="\n".join("import " + m for m in modules_of(pid)),
+                                             audits="\n".join("#audit_ns JL.Props." + n for n in PROP_NAMESPACES.get(pid, [pid]))))
     rc, out = jl.sh(["lake", "env", "lean", af], cwd=jl.LEAN, timeout=1800)
     for m in re.finditer(r"THEOREM (\S+) AXIOMS \[(.*?)\]", out):
         name = m.group(1)
@@ -260,24 +270,26 @@ class Explore:
         self.foreign = []
         self.outcomes = collections.Counter()
         self.ops = collections.Counter()
+        self.cells = collections.Counter()     # (operator or helper, outcome class): partition coverage
         self.notes = []
 
     def account(self, lines, results):
         for l, r in zip(lines, results):
             self.evaluations += 1
             h = r.split("\t")[0].split(" ")[0]
+            if h not in ("ok", "err", "panic", "crash", "hang", "t", "f", "none", "bad-op", "diverged"): h = "value"
             self.outcomes[h] += 1
             if l not in self.distinct:
                 self.distinct.add(l)
                 cmd = l.split(" ")[0]
                 if cmd != "apply":
-                    self.nontrivial += 1; self.ops[cmd] += 1
+                    self.nontrivial += 1; self.ops[cmd] += 1; self.cells[cmd + ":" + h] += 1
                 else:
                     m = re.match(r"apply \{ s([0-9,]*) ", l)
                     if m:
                         key = "".join(chr(int(t)) for t in m.group(1).split(",")) if m.group(1) else ""
                         if key in gen.ALLOPS:
-                            self.nontrivial += 1; self.ops[key] += 1
+                            self.nontrivial += 1; self.ops[key] += 1; self.cells[key + ":" + h] += 1
                         elif self.pid == "C02":
                             self.nontrivial += 1
                     elif self.pid == "C02" and l != "apply n n":
@@ -694,6 +706,15 @@ def main():
     except Exception as e:
         problems.append(dict(what="harness", detail="exploration failed: " + traceback.format_exc()[-3000:]))
 
+    spec_val = None
+    if pid in ("C07", "C08", "C09", "C10"):
+        try:
+            import spec_validate
+            spec_val = spec_validate.run()
+            if spec_val["mismatches"]:
+                problems.append(dict(what="spec-validation", detail="the ECMAScript specification layer disagrees with V8 on %d judgments, e.g. %s" % (spec_val["mismatches"], json.dumps(spec_val["first"][:2]))))
+        except Exception as e:
+            spec_val = dict(error=str(e)[:300])
     findings = load_findings()
     known = [f for f in findings.get("findings", []) if f.get("property") == pid]
     viol = ex.violations if ex else []
@@ -728,10 +749,11 @@ def main():
                evaluations=ex.evaluations if ex else 0, distinct_nontrivial=ex.nontrivial if ex else 0,
                rule="cases are wire lines (command + JSON values); distinct = by exact wire text; non-trivial = an `apply` whose rule is a recognised operation (C02: any non-null literal) or a helper/primitive call",
                samples=ex.samples if ex else [], exhaustive=False,
-               outcomes=dict(ex.outcomes) if ex else {}, operator_histogram=dict(ex.ops.most_common()) if ex else {},
+               outcomes=dict(ex.outcomes) if ex else {}, partition_coverage=dict(sorted(ex.cells.items())) if ex else {}, operator_histogram=dict(ex.ops.most_common()) if ex else {},
                disagreements_attributed_elsewhere=[dict(owner=f["owner"], case=f["case"], impl=f["impl"], model=f["model"]) for f in (ex.foreign[:10] if ex else [])],
                tie=dict(tables=tie_msg, audits=audit_res["summary"]), proof_problems=[p["detail"][:300] for p in problems], notes=ex.notes if ex else [],
-               leanchecker=proof.get("leanchecker", "not run in this tier"))
+               leanchecker=proof.get("leanchecker", "not run in this tier"),
+               spec_validation_against_v8=spec_val if spec_val is not None else "not applicable to this property")
     ev = dict(property_id=pid, tier=tier, seed=seed, level="proof", coverage=cov, wall_s=round(wall, 1), violations=len(new_viol),
               assumptions=["the model's executable definitions agree with the implementation on every input (sampled by the correspondence part of this run)",
                            "IEEE-754 / Rust std / serde_json behave as modelled (see trusted_base)"])
